@@ -829,7 +829,7 @@ class X12ContextReader(object):
                             raise pyx12.errors.EngineError("Map not found.  icvn=%s, fic=%s, vriic=%s" %
                                                            (icvn, fic, vriic))
                         cur_map = map_if.load_map_file(self.map_file, self.param, self.map_path)
-                        if cur_map.id == '837':
+                        if cur_map.id.startswith('837'):
                             self.src.check_837_lx = True
                         else:
                             self.src.check_837_lx = False
@@ -856,7 +856,7 @@ class X12ContextReader(object):
                                     (icvn, fic, vriic, tspc)
                                 raise pyx12.errors.EngineError(err_str)
                             cur_map = map_if.load_map_file(self.map_file, self.param, self.map_path)
-                            if cur_map.id == '837':
+                            if cur_map.id.startswith('837'):
                                 self.src.check_837_lx = True
                             else:
                                 self.src.check_837_lx = False
